@@ -116,6 +116,54 @@ add_template_parameter(CPPDeclaration *param) {
 }
 
 /**
+ * Takes over the default arguments of an earlier declaration of the same
+ * template for the parameters that have none here.
+ */
+void CPPTemplateScope::
+inherit_defaults(const CPPTemplateScope *earlier,
+                 CPPScope *current_scope, CPPScope *global_scope) {
+  const CPPTemplateParameterList::Parameters &eparams =
+    earlier->_parameters._parameters;
+  CPPTemplateParameterList::Parameters &params = _parameters._parameters;
+  if (earlier == this || eparams.size() != params.size()) {
+    return;
+  }
+
+  // The earlier defaults are written in terms of the earlier parameters.
+  CPPDeclaration::SubstDecl subst;
+  for (size_t i = 0; i < params.size(); ++i) {
+    CPPClassTemplateParameter *cparam = params[i]->as_class_template_parameter();
+    CPPClassTemplateParameter *eparam = eparams[i]->as_class_template_parameter();
+    CPPInstance *inst = params[i]->as_instance();
+    CPPInstance *einst = eparams[i]->as_instance();
+
+    if (cparam != nullptr && eparam != nullptr &&
+        cparam->_default_type == nullptr && eparam->_default_type != nullptr) {
+      // Parameter types are shared between templates, so make a new one.
+      CPPClassTemplateParameter *rep = new CPPClassTemplateParameter(*cparam);
+      rep->_default_type =
+        eparam->_default_type->substitute_decl(subst, current_scope,
+                                               global_scope)->as_type();
+      cparam = CPPType::new_type(rep)->as_class_template_parameter();
+      params[i] = cparam;
+      if (cparam->_ident != nullptr) {
+        _types[cparam->_ident->get_local_name()] = cparam;
+      }
+
+    } else if (inst != nullptr && einst != nullptr &&
+               inst->_initializer == nullptr && einst->_initializer != nullptr) {
+      inst->_initializer =
+        einst->_initializer->substitute_decl(subst, current_scope,
+                                             global_scope)->as_expression();
+    }
+
+    if (eparams[i] != params[i]) {
+      subst.insert(CPPDeclaration::SubstDecl::value_type(eparams[i], params[i]));
+    }
+  }
+}
+
+/**
  * Returns true if this declaration is an actual, factual declaration, or
  * false if some part of the declaration depends on a template parameter which
  * has not yet been instantiated.
